@@ -98,7 +98,16 @@ def same_value(a, b):
     if isinstance(a, dict) and isinstance(b, dict):
         return a.keys() == b.keys() and all(same_value(a[k], b[k]) for k in a)
     if isinstance(a, (list, tuple)) and isinstance(b, (list, tuple)):
-        return len(a) == len(b) and all(same_value(x, y) for x, y in zip(a, b))
+        if len(a) != len(b):
+            return False
+        try:  # numeric arrays: tolerance relative to the magnitude of the whole array
+            x, y = np.array(a, dtype=float), np.array(b, dtype=float)
+            if x.shape == y.shape and x.dtype != object:
+                scale = max(1.0, float(np.nanmax(np.abs(y), initial=0.0))) if np.isfinite(y).any() else 1.0
+                return bool(np.allclose(x, y, rtol=1e-9, atol=1e-12 * scale, equal_nan=True))
+        except (TypeError, ValueError):
+            pass
+        return all(same_value(x, y) for x, y in zip(a, b))
     if isinstance(a, float) or isinstance(b, float):
         if a is None or b is None or isinstance(a, (str, bool)) or isinstance(b, (str, bool)):
             return a == b
@@ -167,7 +176,27 @@ def run_case(case):
         import json
 
         plain = json.loads(json.dumps(plain))
+        # derived estimates are undefined where the (leave-one-out) denominator is zero in exact
+        # arithmetic: there it is a rounding residue that depends on the summation order
+        mask = {}
+        if "den_data" in plain and root.get("den_data") is not None:
+            dd, ds = np.array(plain["den_data"], float), np.array(plain["den_samples"], float)
+            rd_, rs_ = np.array(root["den_data"], float), np.array(root["den_samples"], float)
+            if dd.shape == rd_.shape and ds.shape == rs_.shape:
+                floor = 1e-9 * max(np.nanmax(np.abs(dd), initial=0.0), np.nanmax(np.abs(ds), initial=0.0), 1e-300)
+                mask["sample_data"] = (np.abs(dd) > floor) & (np.abs(rd_) > floor)
+                mask["sample_samples"] = (np.abs(ds) > floor) & (np.abs(rs_) > floor)
+                mask["io_corrdata_data"] = mask["sample_data"]
         for key in sorted(plain):
+            if key in ("den_data", "den_samples"):
+                continue
+            if key in mask:
+                a, b = np.array(root.get(key), float), np.array(plain[key], float)
+                good = a.shape == b.shape and bool(np.all(np.isclose(a, b, rtol=1e-6, atol=1e-9, equal_nan=True) | ~mask[key]))
+                if not good:
+                    ck.fail(f"root-differs-from-single-process:{kind}:{key}:max_workers={'1' if mw == 1 else 'other'}", f"{key}: root {a.tolist()} vs single-process {b.tolist()}")
+                    break
+                continue
             if not same_value(root.get(key), plain[key]):
                 ck.fail(f"root-differs-from-single-process:{kind}:{key}:max_workers={'1' if mw == 1 else 'other'}", f"{key}: root {str(root.get(key))[:300]} vs single-process {str(plain[key])[:300]}")
                 break
